@@ -25,6 +25,9 @@ typedef struct {
 	lzma_block block; lzma_filter bf[LZMA_FILTERS_MAX + 1]; bool block_inited;
 	lzma_index *idx_out;     // D_INDEX / D_FILE_INFO result
 	size_t skip;             // bytes of input consumed by init (Block Header)
+	// Handle reuse: when warm_in != NULL the same lzma_stream is first initialised with this decoder and fed
+	// warm_in completely (result ignored), then initialised AGAIN without lzma_end() and used for the real input.
+	const uint8_t *warm_in; size_t warm_n;
 } dec_spec;
 
 /// Which decoders make sense for a generated/corpus stream kind.
